@@ -1,8 +1,13 @@
 #!/bin/sh
-# usage: tools/tryseed.sh <patch> <PROP>...   applies the patch to /repo, runs the checks, reverts
+# usage: tools/tryseed.sh <patch> <PROP>...   applies the patch to /repo, runs the checks, reverts.
+# Evidence and replay files of these runs go to a scratch directory (GOVC_OUT), never to /verif/evidence:
+# committed evidence must come from the unchanged tree.
 patch=$1; shift
+git -C /repo diff --quiet || { echo "/repo has uncommitted changes (commit the contract files first)"; exit 2; }
 cd /repo && git apply "$patch" || exit 2
 cd /verif
-for p in "$@"; do bin/govc check $p 2>&1 | grep -v "^note" | tail -7; echo "exit=$?"; done
-git -C /repo checkout -- . 
+out=$(mktemp -d /tmp/tryseed.XXXXXX)
+for p in "$@"; do GOVC_OUT=$out bin/govc check $p 2>&1 | grep -v "^note" | grep "VIOLATION\|KNOWN-FINDING\|tier=\|UNDECIDED" | cut -c1-300 | tail -12; done
+rm -rf $out
+git -C /repo checkout -- .
 git -C /repo status --short | head -3
